@@ -210,6 +210,10 @@ def run_file(case, ctx):
                     if f[1::2] != recs[1::2] or f[::-1] != recs[::-1]:
                         fail("slice/wrong", "%s slices differ" % rd.__name__)
                         return
+                    for sl in (slice(None, None, -2), slice(None, None, -3), slice(-1, 0, -2), slice(-2, None, -3), slice(1, None, 3), slice(-3, None)):
+                        if f[sl] != recs[sl]:
+                            fail("slice/wrong", "%s[%r] gives %r, a list gives %r" % (rd.__name__, sl, f[sl][:4], recs[sl][:4]))
+                            return
                     # every access returns load(line): a record the caller was given earlier and has modified since must not
                     # come back (nor be shared by two lines of one slice)
                     if recs and getattr(recs[0], "__dict__", None):
